@@ -136,7 +136,39 @@ def run(ctx):
                                   {'phase': q, 'dtype': str(dt), 'bits': bits},
                                   {'what': 'quantize_level_range', 'fn': 'quantize', 'tiny_negative_phase': tiny_neg})
     from .genquantisers import check_generated_quantisers
+    dtype_combinations(ctx)
     check_generated_quantisers(ctx)        # the definitions regenerated from the source (Generated/Quantisers.lean) vs the real code
+
+
+def dtype_combinations(ctx):
+    """generate_complex_field(a, p) = a exp(i p) whatever dtypes carry a and p (whole-number phases or quantised levels stored as integers, a Python float
+    or a float array as amplitude): both APIs, compared with the value computed in float64.  Rejected combinations are not judged."""
+    import odak.wave as NW
+    import odak.learn.wave as LW
+    rng = ctx.rng
+    amp_vals = np.array([0.5, 1.7, 0.25, 2.0])
+    ph_vals = np.array([0, 1, -2, 3])
+    want = amp_vals * np.exp(1j * ph_vals.astype(np.float64))
+    for adt in ('float64', 'float32', 'pyfloat', 'int'):
+        for pdt in ('float64', 'float32', 'int64', 'int32'):
+            ctx.case(('dtype_combo', adt, pdt), True)
+            ctx.count('generate_complex_field/amplitude_%s/phase_%s' % (adt, pdt))
+            a_np = 0.5 if adt == 'pyfloat' else (np.array([1, 2, 1, 3]) if adt == 'int' else amp_vals.astype(adt))
+            w_ = (0.5 * np.exp(1j * ph_vals.astype(np.float64))) if adt == 'pyfloat' else (np.array([1, 2, 1, 3]) * np.exp(1j * ph_vals.astype(np.float64)) if adt == 'int' else want)
+            p_np = ph_vals.astype(pdt)
+            for api in ('numpy', 'torch'):
+                try:
+                    if api == 'numpy':
+                        got = np.asarray(NW.generate_complex_field(a_np, p_np)).astype(np.complex128)
+                    else:
+                        a_t = a_np if adt == 'pyfloat' else torch.from_numpy(np.asarray(a_np))
+                        got = LW.generate_complex_field(a_t, torch.from_numpy(p_np)).numpy().astype(np.complex128)
+                except Exception:
+                    ctx.count('generate_complex_field/rejected/%s/%s/%s' % (api, adt, pdt))
+                    continue
+                if got.shape != w_.shape or not np.allclose(got, w_, atol=1e-5):
+                    ctx.violation('%s generate_complex_field(amplitude %s, phase %s): got %s, a exp(i p) = %s' % (api, adt, pdt, np.round(got, 5).tolist(), np.round(w_, 5).tolist()),
+                                  {'api': api, 'amplitude_dtype': adt, 'phase_dtype': pdt}, {'api': api, 'fn': 'generate_complex_field', 'what': 'dtype_combination'})
 
 
 def replay(ctx, rep):
